@@ -58,6 +58,13 @@ F_LIB = "join/src/lib.rs"
 F_UNIT = "join_impl/src/parse/unit.rs"
 F_CHAIN = "join_impl/src/action_expr_chain/mod.rs"
 
+PARSE_STREAM_ENSURES = [
+    "r is Ok ==> r->Ok_0.parsed.action == *self",
+    "r is Ok ==> r->Ok_0.parsed.expr.ctor_of() == parse_table(self.combinator).1",
+    "r is Ok && self.combinator == Combinator::Initial ==> r->Ok_0.parsed.expr.operands().len() == 1",
+    "r is Ok && self.move_type == MoveType::Wrap ==> r->Ok_0.parsed.expr.operands().len() == 1 && is_identity_closure(r->Ok_0.parsed.expr.operands()[0].toks()) && doc_wrapper_meaning(meaning_of_ctor(parse_table(self.combinator).1))",
+]
+
 # the meaning of the combinator through the two extracted tables
 M_OF_COMB = "meaning_of_ctor(parse_table({c}).1)"
 
@@ -432,14 +439,10 @@ def builder_units():
         fn("len", "r", ensures=["r == self.members@.len()"]),
     ], self_ty="ActionExprChain", trait="Chain", header="impl ActionExprChain"))
     u.append(fns(F_AG, [
-        # ASSUMED (syn-driven): what the parser hands back for one action; ties the result to the R9 tables
-        fn("parse_stream", "r", mode="assumed", ensures=[
-            "r is Ok ==> r->Ok_0.parsed.action == *self",
-            "r is Ok ==> r->Ok_0.parsed.expr.ctor_of() == parse_table(self.combinator).1",
-            "r is Ok && self.combinator == Combinator::Initial ==> r->Ok_0.parsed.expr.operands().len() == 1",
-        ]),
+        # contract only here: verified in module `parse`
+        fn("parse_stream", "r", mode="assumed", ensures=PARSE_STREAM_ENSURES),
     ], self_ty="ActionGroup"))
-    u.append(raw("impl_parse_unit", "impl<'a> ParseUnit<ActionGroup> for ActionExprChainBuilder<'a> {}\nuse crate::Expr::Let;\n"))
+    u.append(raw("impl_parse_unit", "impl<'a> ParseUnit<ActionGroup> for ActionExprChainBuilder<'a> {\n    #[verifier::external_body]\n    fn parse_unit<T: Parse>(&self, input: ParseStream<'_>, allow_empty_parsed: bool) -> (r: UnitResult<T, ActionGroup>) { unimplemented!() }\n}\nuse crate::Expr::Let;\n"))
     u.append(fns(F_UTILS, [fn("is_block_expr", "r", ensures=["r == (expr is Block)"])]))
     u.append(fns(F_BUILDER, [
         fn("build_from_parse_stream", "r",
@@ -470,6 +473,21 @@ def parse_units():
     u.append(ty(F_UNIT, "Unit", subst=[{"find": "<T: Clone + Debug, N: Clone + Debug>", "replace": "<T, N>", "why": "derive bounds are irrelevant to the data layout"}]))
     u.append(raw("prelude_syn", _read("prelude_syn.rs")))
     u.append(raw("specs_parse", _read("specs_parse.rs")))
+    u.append(fns(F_AG, [
+        # ASSUMED (generic unit parsers behind `parse_n_or_empty_unit_fn!`): result tied to the R9 tables
+        fn("parse_action_expr", "r", mode="assumed", ensures=[
+            "r is Ok ==> r->Ok_0.parsed.action == *self",
+            "r is Ok ==> r->Ok_0.parsed.expr.ctor_of() == parse_table(self.combinator).1",
+            "r is Ok && self.combinator == Combinator::Initial ==> r->Ok_0.parsed.expr.operands().len() == 1"]),
+        # C02: a Wrap action is the placeholder built by to_wrapper_action_expr; everything else goes through the table
+        fn("parse_stream", "r", ensures=PARSE_STREAM_ENSURES + [
+        ], closures={
+            "0": {"params": [], "ret": "(r: SynError)"},
+            "1": {"params": ["ExprGroup<ActionExpr>"], "ret": "(r: UnitResult<ExprGroup<ActionExpr>, ActionGroup>)", "ensures": ["r is Ok ==> r->Ok_0.parsed == val"]},
+        }, subst=[{"find": "let &Self {\n            combinator,\n            move_type,\n            ..\n        } = self;",
+                   "replace": "let combinator = self.combinator; let move_type = self.move_type;",
+                   "why": "Verus does not support reference patterns; same bindings (both fields are Copy)"}]),
+    ], self_ty="ActionGroup"))
     u.append({"kind": "exprs", "file": F_UTILS, "self_ty": "", "func": "parse_until", "what": "suffix_after_while", "name": "parse_until_suffix",
               "params": "input: ParseStream<'_>, wrapper_determiner: &GroupDeterminer, next: Option<&GroupDeterminer>, deferred: bool, wrap_in: bool, tokens: TokenStream",
               "fields": [{"name": "<T: Parse>", "ty": "UnitResult<T, ActionGroup>"}],
@@ -527,7 +545,7 @@ OBLIGATIONS = {
             ("core", "ProcessExpr::replace_inner_exprs"), ("core", "ErrExpr::replace_inner_exprs"),
             ("core", "InitialExpr::replace_inner_exprs"), ("core", "ActionExpr::replace_inner_exprs"),
             ("gen", "JoinOutput::expand_process_expr"), ("gen", "JoinOutput::generate_def_and_step_streams")],
-    "C02": [("parse", "parse_until_suffix"), ("parse", "lemma_wrapper_frame"), ("builder", "ActionExprChainBuilder::build_from_parse_stream"), ("gen", "JoinOutput::wrap_last_step_stream"), ("gen", "JoinOutput::process_step_action_expr"),
+    "C02": [("parse", "ActionGroup::parse_stream"), ("parse", "parse_until_suffix"), ("parse", "lemma_wrapper_frame"), ("builder", "ActionExprChainBuilder::build_from_parse_stream"), ("gen", "JoinOutput::wrap_last_step_stream"), ("gen", "JoinOutput::process_step_action_expr"),
             ("gen", "lemma_step_toks1"), ("core", "Combinator::can_be_wrapper"), ("core", "ActionGroup::to_wrapper_action_expr"),
             ("core", "ProcessExpr::replace_inner_exprs"), ("core", "ErrExpr::replace_inner_exprs"),
             ("core", "InitialExpr::replace_inner_exprs"), ("core", "ActionExpr::replace_inner_exprs"),
